@@ -5,7 +5,7 @@
    element at each index.  For EVERY threshold value (90/95/99 included), every
    array of 64-bit values with 1 <= length < 2^32.
    Nothing but statements closed by `exact`, each followed by Print Assumptions. *)
-Require Import VV.Base VV.Tagged VV.PFOR VV.PFORTheorems VVgen.Consts.
+Require Import VV.Base VV.Tagged VV.PFOR VV.PFORTheorems VV.PFORProofsFuel VVgen.Consts.
 Local Open Scope N_scope.
 
 (* decode (encode xs) = xs; header parsed by the decoder (meta->width == 0) *)
@@ -49,6 +49,19 @@ Theorem C02_pfor_get_at_read_meta : forall xs thr tl i m0 h rm,
   pfor_get_at (pfor_encode_bytes xs thr ++ tl) (N.of_nat i) rm = POk (nth i xs 0).
 Proof. exact pfor_get_at_read_meta. Qed.
 Print Assumptions C02_pfor_get_at_read_meta.
+
+(* adequacy of the model's fuel: on EVERY byte string (valid or not) and every
+   caller metadata the decoder loops end by themselves, never by exhausting the
+   fuel (the input length) *)
+Theorem C02_pfor_decode_fuel_suffices : forall z m,
+  bytes_ok z -> pfor_decode z m <> PFuel.
+Proof. exact pfor_decode_no_fuel. Qed.
+Print Assumptions C02_pfor_decode_fuel_suffices.
+
+Theorem C02_pfor_get_at_fuel_suffices : forall z i m,
+  bytes_ok z -> pfor_get_at z i m <> PFuel.
+Proof. exact pfor_get_at_no_fuel. Qed.
+Print Assumptions C02_pfor_get_at_fuel_suffices.
 
 (* non-vacuity: the former marker-collision witness (F04) and an outlier, at
    the header's thresholds *)
